@@ -51,6 +51,9 @@ Fixpoint xuses_self (e : xexpr) : bool :=
   | XTuple es => existsb (fun x => xuses_self x) es
   | XRecord fs | XCallNamed _ fs => existsb (fun fe => xuses_self (snd fe)) fs
   | XApp f args => xuses_self f || existsb (fun x => xuses_self x) args
+  | XSelfS _ => true
+  | XCon _ _ arg => match arg with Some a => xuses_self a | None => false end
+  | XMatch sc arms => xuses_self sc || existsb (fun a => xuses_self (snd a)) arms
   end.
 
 Definition self_ok (body : xexpr) (rt : ty) : bool := negb (xuses_self body) || ty_eqb rt TNum.
@@ -204,6 +207,7 @@ Section Tc.
         | _, _ => None
         end
     | XSeq a b => match tc G a with Some _ => tc G b | None => None end
+    | XSelfS _ | XCon _ _ _ | XMatch _ _ => None
     end.
 
   Definition tc_list (G : tenv) (es : list xexpr) : option (list ty) := omap (fun x => tc G x) es.
